@@ -1441,11 +1441,13 @@ class _IndexGOMixin:
             raise KeyError(f'duplicate key append attempted: {value}')
 
         # we might need to initialize map if not an increment that keeps loc_is_iloc relationship
-        initialize_map = False
         if self._map is None: # loc_is_iloc
             if not (isinstance(value, INT_TYPES)
                     and value == self._positions_mutable_count):
-                initialize_map = True
+                # build the map and add the value before any state changes: add raises for a value equal to a held label (1.0 and 1)
+                map_initialized = AutoMap(self._labels_mutable)
+                map_initialized.add(value)
+                self._map = map_initialized
         else:
             self._map.add(value)
 
@@ -1457,10 +1459,6 @@ class _IndexGOMixin:
             self._labels_mutable_dtype = dtype_from_element(value)
 
         self._labels_mutable.append(value)
-
-        if initialize_map:
-            self._map = AutoMap(self._labels_mutable)
-
         self._positions_mutable_count += 1
         self._recache = True
 
